@@ -30,7 +30,12 @@ def run_bound_program(bp, inputs):
     knl = t_unit.default_entrypoint
     wanted = {a.name for a in knl.args if not getattr(a, "is_output", False)}
     args = {k: v for k, v in args.items() if k in wanted}
-    _evt, out = t_unit.executor()(**args)
+    import contextlib
+    import io
+    # (loopy print()s the whole translation unit when its own pre-schedule
+    # check fails, before raising)
+    with contextlib.redirect_stdout(io.StringIO()):
+        _evt, out = t_unit.executor()(**args)
     if not isinstance(out, dict):
         outs = [a.name for a in knl.args if getattr(a, "is_output", False)]
         out = dict(zip(outs, out))
